@@ -4,6 +4,9 @@ import PV.Drv.C09
 import PV.Drv.Sgp4
 import PV.Drv.Numeric
 import PV.Drv.C10
+import PV.Drv.C02
+import PV.Drv.C15
+import PV.Drv.C19
 import PV.Drv.C1617
 namespace PV.Drv
 
@@ -11,7 +14,7 @@ def echoF : Handler := fun args => fmtFs (args.map parseF)
 def echoS : Handler := fun args => " ".intercalate (args.map (fmtS ∘ parseS))
 
 def table : List (String × Handler) :=
-  [("echoF", echoF), ("echoS", echoS)] ++ C09.handlers ++ Sgp4.handlers ++ Numeric.handlers ++ C10.handlers ++ C1617.handlers
+  [("echoF", echoF), ("echoS", echoS)] ++ C09.handlers ++ Sgp4.handlers ++ Numeric.handlers ++ C10.handlers ++ C02.handlers ++ C15.handlers ++ C19.handlers ++ C1617.handlers
 
 def lookup (op : String) : Option Handler := (table.find? (·.1 == op)).map (·.2)
 
